@@ -348,10 +348,60 @@ def r5(ctx, facts):
         r.instance("writer-consumed:" + dkey, consumed, "the CellWriter from make_cell_writer() must be handed to serialize()/set_null()/set_unset(); an unused writer makes value_count exceed the encoded cells", c.span)
 
 
+def r6(ctx, facts):
+    r = ctx.rule("R6", "WrittenCellProof (the type-level 'one cell was written' token every serialize() must return) is minted only by the cell writers, after writing", floor=9)
+    W = "scylla_cql_core::serialize::writers::"
+    mints = []
+    for b in facts.bodies.mentioning("WrittenCellProof"):
+        for bb in b.live_blocks:
+            for st in b.stmts(bb):
+                if st[0] == "A" and st[2][0] == "agg" and st[2][1][0] == "adt" and st[2][1][1] == W + "WrittenCellProof":
+                    mints.append(fn_short(b.path))
+    r.instance("constructed-only-in-new", sorted(set(mints)) == ["WrittenCellProof::new"], "WrittenCellProof values are built in %s; only the private WrittenCellProof::new may" % sorted(set(mints)))
+    newp = [p for p in facts.bodies.keys() if p.startswith(W) and p.endswith("WrittenCellProof::<'_>::new")] or [p for p in facts.bodies.keys() if p.startswith(W) and "WrittenCellProof" in p and p.endswith("::new")]
+    if len(newp) != 1:
+        raise AnchorLost("WrittenCellProof::new not found (%s)" % newp)
+    ALLOWED = {"CellWriter::set_null", "CellWriter::set_unset", "CellWriter::set_value", "CellValueBuilder::finish"}
+    callers = {}
+    for b, bb in facts.callers_of(newp[0]):
+        if bb in b.live_blocks:
+            callers.setdefault(fn_short(b.path), []).append((b, bb))
+    for k in sorted(set(callers) | ALLOWED):
+        r.instance("minter:" + k, k in ALLOWED and k in callers, "%s %s" % (k, "mints a WrittenCellProof but is not one of the four cell-finishing operations" if k not in ALLOWED else "no longer mints the proof (renamed/removed: re-confirm)"),
+                   callers[k][0][0].span if k in callers else None)
+    # the three direct writers append to the buffer on every path before minting
+    for k in ("CellWriter::set_null", "CellWriter::set_unset", "CellWriter::set_value"):
+        if k not in callers:
+            continue
+        b = callers[k][0][0]
+        ext = [c.bb for c in b.calls_to("Vec::<T, A>::extend_from_slice", "Vec::<T>::extend_from_slice")]
+        ok = bool(ext) and all(bb not in b.reachable_from(0, removed_nodes=ext) for _, bb in callers[k])
+        r.instance("writes-before-proof:" + k, ok, "%s must append the cell to the buffer on every path that returns the proof" % k, b.span)
+    fb = callers.get("CellValueBuilder::finish")
+    if fb:
+        b = fb[0][0]
+        df = df_of(b, facts)
+        cp = [c.bb for c in b.calls_to("core::slice::<impl [T]>::copy_from_slice")]
+        # with the back-patch removed, the proof is reachable only through the `write_size == false` edge
+        sws = [bb for bb in b.live_blocks if b.term(bb)[0] == "switch" and path_last(operand_path(df, b.term(bb)[1]) or (0, ())) == "write_size"
+               or b.term(bb)[0] == "switch" and "write_size" in str(df.expr_of_operand(b.term(bb)[1]))]
+        ok = bool(cp) and bool(sws)
+        if ok:
+            edges, other = switch_edges_local(b, sws[0])
+            true_tg = other if 0 in edges else edges.get(1)
+            ok = all(bb not in b.reachable_from(true_tg, removed_nodes=cp) for _, bb in fb)
+        r.instance("finish-backpatches-length", ok, "CellValueBuilder::finish must back-patch the 4-byte length on every `write_size` path before returning the proof", b.span)
+
+
+def switch_edges_local(b, bb):
+    t = b.term(bb)
+    return {int(v): tg for v, tg in t[2]}, t[3]
+
+
 def check(ctx):
     facts = ctx.facts("default")
     config = ctx.alias.get("default", "default")   # the thorough tier re-runs this module over `full` and `unstable`
-    for fn in (lambda c, f: r1_r2(c, f, config), r3, r4, r5):
+    for fn in (lambda c, f: r1_r2(c, f, config), r3, r4, r5, r6):
         try:
             fn(ctx, facts)
         except AnchorLost as ex:
